@@ -123,6 +123,11 @@ func main() {
 		}
 	}
 
+	// deterministic systematic cases shared with the C12 harness (integer strings, vint / varint boundaries)
+	for i, sc := range mv.SharedSystematic() {
+		rn.RoundTrip(sc.Kind, 1+i%5, sc.T, sc.V, sc.Gs)
+	}
+
 	// 2. native columns
 	for i := 0; i < 420*S; i++ {
 		id := mv.NativeIDs[r.Intn(len(mv.NativeIDs))]
